@@ -1372,6 +1372,26 @@ pub fn generate(ctx: &mut Ctx) {
             emit(ctx, &format!("seq:root_{root}"), "seq", &GraphSrc::Zinc, t);
         }
     }
+    // has_relationship over ONE record set whose Refs point at each other: one (relationship, term, target) asked of every
+    // record, in every rotation of the order - what one walk learns about a ref must not decide another walk
+    for i in 0..ctx.n(6, 40) {
+        let mut g = c13::gen_graph(&mut rng, 12);
+        let mut rows = g.rows.clone();
+        c13::add_assoc_rows(&mut rng, &mut rows);
+        g.rows = rows;
+        let (recs, fam) = c13::gen_rel(&mut rng, &g.rows, false);
+        let triples: Vec<&c13::RelQuery> = fam.iter().rev().step_by(6).take(2).collect();
+        for (ti, t) in triples.iter().enumerate() {
+            for rot in 0..recs.len() {
+                let qs: Vec<Q> = (0..recs.len()).map(|k| Q::RelX(recs.clone(), t.rel.clone(), t.term.clone(), t.target.clone(), (k + rot) % recs.len())).collect();
+                let mut tk = vec![qs.len().to_string()];
+                for q in &qs {
+                    q.write(&mut tk);
+                }
+                emit(ctx, &format!("seq:relx{i}_{ti}"), "seq", &GraphSrc::Rows(g.rows.clone()), tk);
+            }
+        }
+    }
     // several associations of ONE parent one after the other (computed ones among them: tags, quantities, ...), in both
     // orders, on the real database: each answer is that of a fresh namespace
     for parent in ["air", "site", "ahu", "elec-meter", "weather", "neverMentioned"] {
